@@ -722,3 +722,38 @@ pub fn replay_run(a: &Args, out: &mut Out) {
         m.end(out);
     }
 }
+
+/// `lc3v replay trapmode hist=<file> ops=<file>`: each history is R0 followed by the words of a user program
+/// of MC_TrapMode; it is run to completion under virtual and under real traps (a "trapmode" pair).
+pub fn replay_trapmode(a: &Args, out: &mut Out) {
+    let ops: serde_json::Value = serde_json::from_str(std::fs::read_to_string(a.get_str("ops", "")).expect("ops file").lines().next().unwrap()).expect("ops");
+    let hist = std::fs::read_to_string(a.get_str("hist", "")).expect("hist file");
+    let nums = |v: &serde_json::Value| -> Vec<u16> { v.as_array().unwrap().iter().map(|x| x.as_u64().unwrap() as u16).collect() };
+    let data = nums(&ops["data"]);
+    let dataaddr = ops["dataaddr"].as_u64().unwrap() as u16;
+    let kbd: Vec<u8> = nums(&ops["kbd"]).iter().map(|&x| x as u8).collect();
+    set_pair_tag("trapmode");
+    let mut run = 0u64;
+    for line in hist.lines() {
+        if line.trim().is_empty() { continue; }
+        let h: Vec<u16> = serde_json::from_str::<Vec<u64>>(line).expect("history").iter().map(|&x| x as u16).collect();
+        for real in [false, true] {
+            run += 1;
+            let mut m = M::new(run, known(0, real, false), out);
+            let mut pokes: Vec<(u16, Word)> = h[1..].iter().enumerate().map(|(i, &w)| (0x3000 + i as u16, word(w, 0xFFFF))).collect();
+            pokes.extend(data.iter().enumerate().map(|(i, &w)| (dataaddr + i as u16, word(w, 0xFFFF))));
+            m.set_mems(out, &pokes);
+            for r in 0..8u16 {
+                let v = match r { 0 => h[0], 1 => dataaddr, 5 => 0, 6 => ops["r6"].as_u64().unwrap() as u16, _ => 7 * (r + 1) };
+                m.set_reg(out, r as u8, word(v, 0xFFFF));
+            }
+            m.set_psr(out, ops["psr"].as_u64().unwrap() as u16);
+            m.set_pc(out, 0x3000);
+            m.keys(out, &kbd);
+            m.add_intfn(out);
+            m.run_call(out, "run", 0, &[], 3000);
+            m.end(out);
+        }
+    }
+    set_pair_tag("none");
+}
